@@ -54,7 +54,8 @@ CLASSES = {
         "suspended / revoked (decision.rs::resolve_delegation checks the root delegator's liveness only)",
     "denied_owner_still_gets_space_counts":
         "reads_whole_space answers TRUE for an owner before any deny is consulted, so an owner that an explicit policy "
-        "deny forbids to read still receives the Space-wide element counts of DESCRIBE PRIMER",
+        "deny forbids to read still receives the Space-wide element counts of DESCRIBE PRIMER and the unfiltered "
+        "change list of DESCRIBE TRANSACTION (the journal filter is skipped for whole-Space readers)",
     "purge_replaces_governance_block":
         "PURGE (a KML command of a session holding `purge`) replaces the element's governance block by the purge "
         "marker: the classification is lost, the stub falls back to the Space default classification",
@@ -149,6 +150,9 @@ def classify(m, case):
     cmd, got, want = _base(m["cmd"]), m.get("got") or {}, m.get("want") or {}
     held = m.get("held", [])
     if cmd == "describe-transaction" and "ok" in got and want.get("err") == "TransactionUnknown":
+        if m.get("p") == "own":
+            # the owner under an explicit deny: the journal filter is skipped for "whole-Space" readers
+            return "denied_owner_still_gets_space_counts"
         return "describe_transaction_unfiltered"
     if cmd.startswith("snapshot-token") and want.get("err") == "NotAuthorized" and "ok" in got \
             and "read" in held and "read_history" not in held:
